@@ -26,6 +26,7 @@ RULES = {
     "C06-XC": "(thorough) decision tables of the configuration-independent functions of this property are identical in every build configuration",
     "C06-F1": "item writers: delimiter before the first data write on every path; every path that wrote data leaves output_count incremented",
     "C06-F1b": "the ',' write is guarded by output_count > 0; the block data call counts the item exactly when remaining reaches 0 on every non-error path",
+    "C06-F8": "a unit is marked as a response exactly when it wrote items: the mark depends on output_count, not only on the handler's result and the '?'",
     "C06-F2": "no unit separator ';' is written on a path that afterwards reaches the handler invocation",
     "C06-F5": "every ';' write is guarded by !first_output; first_output is cleared only after the handler was invoked and only by processCommand, and on every path where a query's handler succeeded without error",
     "C06-F3": "first_output set before the unit loop; exactly one writeNewLine on every path from the loop to the return; line ending and flush on the same !first_output edge",
@@ -540,6 +541,35 @@ def rule_f7(ck, prog):
         ck.holds("C06-F7", st, K.loc(wd), "`%s` has %d bits, array counts have %d" % (fld["name"], have, need))
 
 
+def rule_f8(ck, prog, S):
+    """Whether a unit counts as a response (terminator, flush, separator in front of the next unit) must agree with whether
+    it put bytes into the output.  The item writers count what they write in `output_count`; a decision taken from the
+    handler's return value and the '?' of the header instead disagrees with the bytes whenever a handler emits items and
+    then fails, or a command without '?' emits items."""
+    f = prog.fn("processCommand")
+    if f is None:
+        return
+    clears = [n for n, t in C.stores(f) if (t.get("path") or "").endswith("->first_output") and n.get("op") == "=" and C.const_of(n.child(1)) == 0]
+    st = K.site(f, "responded-iff-items-written", 0)
+    if not clears:
+        ck.anchor_lost("C06-F8", "the store that marks the unit as a response in processCommand")
+        return
+    bad = None
+    for n in clears:
+        facts = K.facts_at(S, f, n) or []
+        if not any(not isinstance(pol, tuple) and any((x.get("path") or "").endswith("->output_count") for x in a.walk()) for a, pol in facts):
+            bad = (n, [a.src for a, pol in facts if not isinstance(pol, tuple)][:5])
+    if bad:
+        ck.violated("C06-F8", st, K.loc(f, bad[0]),
+                    "the unit is marked as a response under %s, none of which looks at the number of items written: a query whose "
+                    "handler emits an item and then fails leaves that item in the output without terminator or flush, and a command "
+                    "without '?' that emits items writes them raw in front of / behind the neighbouring response" % bad[1],
+                    {"witness": "handlers: PART? emits 5 then returns SCPI_RES_ERR, EMIT (no '?') emits 7. \"PART?\\n\" writes \"5\" (no terminator, "
+                                "no flush); \"PART?;ONE?\\n\" writes \"51\\r\\n\"; \"EMIT;ONE?\\n\" writes \"71\\r\\n\""})
+    else:
+        ck.holds("C06-F8", st, K.loc(f, clears[0]), "the response mark depends on the items written")
+
+
 def run(ck, fb, tier):
     for cfg in fb.configs:
         ck.config = cfg
@@ -549,6 +579,7 @@ def run(ck, fb, tier):
         rule_f1b(ck, prog, S)
         rule_f2_f5(ck, prog, S)
         rule_f6(ck, prog, S)
+        rule_f8(ck, prog, S)
         rule_f3_f4(ck, prog, S)
         rule_f7(ck, prog)
         rule_transport(ck, prog, S)
